@@ -125,7 +125,7 @@ func checkC12(c c12Case, ctx *vCtx) *vFailure {
 		r := vRunApp(vInvocation{Args: append(append(append([]string{"--today", vToday}, global...), "-d", bookPath, "-l", lp), sc...)})
 		ctx.Run(1)
 		if r.Failed {
-			vFault("C12: %v failed on a valid log: %s", cmd, r)
+			vViolate("C12: %v failed on a valid log: %s", cmd, r)
 		}
 		return r.Stdout
 	}
